@@ -295,6 +295,7 @@ gproof! { fn c14_union_eq_same_variant_by_value() {
     let u1: ArcUnion<u8, u16> = ArcUnion::from_first(Arc::new(x));
     let u2: ArcUnion<u8, u16> = ArcUnion::from_first(Arc::new(y));
     assert!((u1 == u2) == (x == y), "F2 ArcUnion == (same variant) is not value equality");
+    assert!((u1 != u2) == (x != y), "ArcUnion != (same variant) is not value inequality");
     core::mem::forget(u1);
     core::mem::forget(u2);
 } }
